@@ -2,10 +2,10 @@ package c18
 
 import (
 	"fmt"
-	"os"
 	"go/ast"
 	"go/parser"
 	"go/token"
+	"os"
 	"sort"
 	"strconv"
 	"strings"
